@@ -98,8 +98,8 @@ class SdcLocation:
         """Check if location in scope is inside own location."""
         try:
             other = self.__class__.from_scope_string(scope_text)
-        except UrlSchemeError:
-            # Scope has different scheme, no match
+        except (UrlSchemeError, ValueError):
+            # Scope has different scheme or is not a valid URL, no match
             return False
         else:
             return other in self
@@ -131,8 +131,9 @@ class SdcLocation:
         if src.scheme.lower() != cls.scheme:
             msg = f'scheme "{src.scheme}" not excepted, must be "{cls.scheme}"'
             raise UrlSchemeError(msg)
-        dummy, root, _ = src.path.split('/')
-        root = unquote(root)
+        # path is '/<root>[/<extension>]'; only the root is evaluated, the extension segment is optional (see mk_scopes)
+        path_elements = src.path.split('/')
+        root = unquote(path_elements[1]) if len(path_elements) > 1 else ''
         query_dict = dict(parse_qsl(src.query))
         # make a new argumentsDict with well known keys.
         # This allows to ignore unknown keys that might be present in query_dict
